@@ -28,6 +28,7 @@ def run(ctx):
     # forced sequential and threshold paths give the same observable
     r, out, args = se.controlled(ctx, names, 3, extra={"force_sequential": True}, tag="seq")
     se.report(ctx, r, args, "C01")
+    se.validate(ctx, r, out, "trace_seq")
     ctx.assumptions += ["blocks of spec/grevm_blocks.json realised through a custom precompile (storage reads/writes, data-dependent branches, fatal errors); opcode-level fidelity is delegated to stock revm as the oracle",
                         "bundle comparison: post-state, original values, statuses, contracts, reverts and size accounting"]
     ctx.notes["not_covered"] = "creates, self-destructs, EIP-7702 and fee-setting families are exercised by C07-C09 scenarios, not here"
